@@ -1,14 +1,8 @@
-(* C19 part B - VALUE-FLOW models of solvor/powell.py: powell() and solvor/bfgs.py: bfgs(), lbfgs()
-   (objective_fn given).  Definitions only.  These solvers do not use the Evaluator; the stream holds the raw
+(* C19 part B - VALUE-FLOW model of solvor/bfgs.py: bfgs(), lbfgs() (objective_fn given; powell: B_Powell.v).  Definitions only.  These solvers do not use the Evaluator; the stream holds the raw
    user values of the objective calls in call order (est0 user_values), identity = index of the call.
    The property for them is only: the reported objective is the objective of exactly the returned point.
 
    ABSTRACTED (stated in the harness notes):
-   * powell: a line search (_line_search = _bracket_minimum + _golden_section_search, or the degenerate
-     branch) is an oracle that says how many objective calls it made (K >= 1); in the code its result
-     (x_new, sign*f_opt) is the point and value of its LAST call (f_min = f(x_min) resp. objective_fn(x)),
-     which is what the model tracks.  [conv it] = the float test abs(f_start-f_x) < tol*(1+abs(f_x)),
-     [moved it] = disp_norm > 1e-12.
    * bfgs / lbfgs: [conv it] = grad_norm < tol, [bt it] = number of trial points of
      _backtracking_line_search (1..30, decided by the float Armijo test); the line search returns only
      alpha, the objective reported is a FRESH call objective_fn(x) on the current x, so the returned point's
@@ -17,69 +11,6 @@ From Coq Require Import List ZArith Bool Arith Lia.
 From SV Require Import C19.B_Common.
 Import ListNotations.
 Open Scope Z_scope.
-
-(* k >= 1 objective calls, keep the last one *)
-Definition calls_last (k : nat) (st : est) : option (ent * est) :=
-  match eval_n k st with
-  | None => None
-  | Some (es, st') =>
-    match es with
-    | [] => None
-    | e :: r => Some (last r e, st')
-    end
-  end.
-
-(* ---------------- powell ---------------- *)
-(* for i in range(n): x, f_x, ls_evals = _line_search(...); evals += ls_evals
-   j = ordinal of the next line search (argument of the oracle [lens]) *)
-Fixpoint pw_dirs (lens : nat -> nat) (n j : nat) (cur : ent) (ev : nat) (st : est) : option (ent * nat * nat * est) :=
-  match n with
-  | O => Some (cur, j, ev, st)
-  | S n' =>
-    match calls_last (lens j) st with
-    | None => None
-    | Some (c, st') => pw_dirs lens n' (S j) c (ev + lens j)%nat st'
-    end
-  end.
-
-Definition pw_result (cur : ent) (it ev : nat) (s : status) : result := mkR (eid cur) (eval_ cur) it ev s.
-
-(* for iteration in range(max_iter) *)
-Fixpoint pw_loop (max_iter n : nat) (lens : nat -> nat) (conv moved : nat -> bool)
-         (cb : option (nat -> bool)) (interval : nat)
-         (k it j : nat) (cur : ent) (ev : nat) (st : est) : option (result * est) :=
-  match k with
-  | O => Some (pw_result cur max_iter ev MAX_ITER, st)
-  | S k' =>
-    match pw_dirs lens n j cur ev st with
-    | None => None
-    | Some (c, j1, ev1, st1) =>
-      if conv it then Some (pw_result c it ev1 OPTIMAL, st1)          (* Result(x, f_x, iteration, evals) *)
-      else
-        let extra :=
-          if moved it then
-            match calls_last (lens j1) st1 with
-            | None => None
-            | Some (c2, st2) => Some (c2, S j1, (ev1 + lens j1)%nat, st2)
-            end
-          else Some (c, j1, ev1, st1) in
-        match extra with
-        | None => None
-        | Some (c2, j2, ev2, st2) =>
-          if report_progress cb interval (it + 1) then Some (pw_result c2 (it + 1) ev2 FEASIBLE, st2)
-          else pw_loop max_iter n lens conv moved cb interval k' (S it) j2 c2 ev2 st2
-        end
-    end
-  end.
-
-Definition powell_run_st (n max_iter : nat) (lens : nat -> nat) (conv moved : nat -> bool)
-           (cb : option (nat -> bool)) (interval : nat) (user_values : list Z) : option (result * est) :=
-  match eval (est0 user_values) with                                    (* f_x = objective_fn(x); evals += 1 *)
-  | None => None
-  | Some (c0, st0) => pw_loop max_iter n lens conv moved cb interval max_iter 0 0 c0 1 st0
-  end.
-Definition powell_run n max_iter lens conv moved cb interval user_values : option result :=
-  option_map fst (powell_run_st n max_iter lens conv moved cb interval user_values).
 
 (* ---------------- bfgs / lbfgs ---------------- *)
 Definition qn_report (st : est) (it ev : nat) (s : status) : option (result * est) :=
